@@ -301,7 +301,24 @@ inline void auditPartition(const ADD& d, const AuditOpt& o, vf::Case& c, const s
       double ulp = std::nextafter(std::fabs(s.v[i]), INF) - std::fabs(s.v[i]);
       double tv = (double)(k + 1) * std::max(s.prec, ulp);
       if (!(s.v[i] >= s.b[i] - tv && s.v[i] <= s.b[i + 1] + tv)) {
-        fail(std::string("values|outside-own-class-interval|") + (s.med ? "median" : "mean") + dc, where() + " | class " + str(i) + " value " + num(s.v[i]) + " not in [" + num(s.b[i]) + "," + num(s.b[i + 1]) + "]");
+        // Which failing site? With median-valued classes the library multiplies every class median by one common factor (mean over the
+        // domain / mean of the medians) so that the discrete mean is kept: a median times that factor can leave its class although the
+        // median itself is inside. That site is told apart from any other way a value can be outside its class by recomputing the recipe
+        // with the object's own parent functions: the class median must lie in the class, and the reported value must be that median
+        // times the factor (or, when the product leaves the domain, the domain end it was moved back to).
+        std::string why = s.med ? "median" : "mean";
+        if (s.med && M0 > 0 && (s.scheme == 1 || s.scheme == 3)) {
+          double minX = d.pProb(s.lb), ec = M0 / (double)k, t = 0;
+          std::vector<double> md(k);
+          for (size_t j = 0; j < k; ++j) { md[j] = d.qProb(minX + ((double)j + 0.5) * ec); t += md[j]; }
+          double factor = (d.Expectation(s.ub) - d.Expectation(s.lb)) / t / ec;
+          double resc = md[i] * factor;
+          bool medianInside = md[i] >= s.b[i] - tv && md[i] <= s.b[i + 1] + tv;
+          bool isRescaled = std::fabs(s.v[i] - resc) <= tv + 1e-9 * std::fabs(resc);
+          bool movedBack = (resc > s.ub && std::fabs(s.v[i] - s.ub) <= tv) || (resc < s.lb && std::fabs(s.v[i] - s.lb) <= tv);
+          if (factor > 0 && std::isfinite(factor) && medianInside && (isRescaled || movedBack)) why = "median|class-median-inside-but-common-rescaling-factor-moves-it-out";
+        }
+        fail(std::string("values|outside-own-class-interval|") + why + dc, where() + " | class " + str(i) + " value " + num(s.v[i]) + " not in [" + num(s.b[i]) + "," + num(s.b[i + 1]) + "]");
         break;
       }
     }
